@@ -45,6 +45,18 @@ def lines(run):
             elif op[0] == "removeall":
                 out.append("%d start removeall" % t)
                 st[t] = {"op": "removeall"}
+            elif op[0] == "fork":
+                out.append("%d start fork" % t)
+                # the order in which acquire_locks() will take the handler locks (WeakSet order)
+                order = []
+                for (tn2, k2, o2, v2) in tr[pos + 1:]:
+                    if tn2 != tn:
+                        continue
+                    if k2 == "forked":
+                        break
+                    if k2 == "acquired" and o2.startswith("h"):
+                        order.append(int(o2[1:]))
+                st[t] = {"op": "fork", "order": order, "phase": 0}
             else:
                 out.append("%d start other" % t)
                 st[t] = {"op": "other"}
@@ -59,8 +71,12 @@ def lines(run):
                 elif cur["reads"] == 1 and cur.get("nonempty"):
                     out.append("%d early" % t)
             st.pop(t, None)
+        elif kind == "forked":
+            out.append("%d forked" % t)
         elif kind == "acquired":
-            if obj == "core":
+            if obj == "core" and cur and cur["op"] == "fork":
+                out.append("%d forkAcq %s" % (t, ids(cur["order"])))
+            elif obj == "core":
                 out.append("%d acqCore" % t)
             elif obj.startswith("h"):
                 h = int(obj[1:])
